@@ -72,7 +72,9 @@ def run(ctx):
     s1_kinds(ctx)
     fn = ctx.repo.func(EDGE, "EdgeMinimalSpanningTree.compute")
     nb, _ = sk.arity_agreement(ctx, "C10-A1", EDGE, fn)
-    ctx.require_count("C10-A1 callable bindings", nb, 3)
+    if nb == 0:
+        ctx.fail("C10-A1", ctx.site(EDGE, fn), "weight callable of Kruskal is never called",
+                 "the weight mode selected by the caller has no effect on the tree")
 
 
 # ----------------------------------------------------------------------- helpers
@@ -134,27 +136,27 @@ def bfs_tree(ctx, modname, cname, fn, kind, excl):
         ctx.fail("C10-B1", site, "popped entry is not unpacked as a (parent, child) pair at the top of the loop", au.src(pst))
         return 1
     pair = [x.id for x in pst.targets[0].elts]
-    # ---- seen test on the child
+    # ---- seen table and child: from the mark `seen[c] = True` on a member of the popped pair
     SEEN = child = None
-    for st in loop.body:
-        if isinstance(st, ast.If) and sk.diverts(st.body) and not st.orelse:
-            for e, p in sk.atoms([(st.test, True)]):
-                if sk.is_sub(e) and e.slice.id in pair and p:
-                    SEEN, child = e.value.id, e.slice.id
+    for st in au.stmts(loop.body):
+        if isinstance(st, ast.Assign) and len(st.targets) == 1 and sk.is_sub(st.targets[0]) and st.targets[0].slice.id in pair \
+                and au.const(st.value) is True:
+            SEEN, child = st.targets[0].value.id, st.targets[0].slice.id
     if SEEN is None:
-        # nested form: if not seen[c]: ...
         for st in loop.body:
             if isinstance(st, ast.If):
                 for e, p in sk.atoms([(st.test, True)]):
-                    if sk.is_sub(e) and e.slice.id in pair and not p:
+                    if sk.is_sub(e) and e.slice.id in pair:
                         SEEN, child = e.value.id, e.slice.id
     if SEEN is None:
-        ctx.fail("C10-B1", site, "popped child is not tested against the seen table (`if seen[child]: continue`)",
-                 "an element reachable along two routes is queued twice; without the test its parent is overwritten by the later, "
-                 "longer route and it is expanded twice")
+        ctx.fail("C10-B1", site, "`seen[child] = True` is missing or conditional after the seen test",
+                 "popped elements are never marked: the enqueue guard `not seen[..]` never closes and the search does not terminate on a cycle")
         return 1
     par = [x for x in pair if x != child][0]
     ci, pi = pair.index(child), pair.index(par)
+    helpers0 = {name for name, d_ in local_defs(fn).items() if any(q_method(c, Q, ("append", "appendleft")) for c in au.calls(d_))}
+    expansions = [c for c in au.calls(loop) if (isinstance(c.func, ast.Name) and c.func.id in helpers0) or q_method(c, Q, ("append", "appendleft"))]
+    pop_tested = bool(expansions) and all(sk.has_atom(sk.path_conds(c, stop=loop), sk.sub(SEEN, child), False) for c in expansions)
     # ---- X1: every enqueue
     n_push = 0
     for c, owner in pushes:
@@ -167,9 +169,9 @@ def bfs_tree(ctx, modname, cname, fn, kind, excl):
         pc, cc = t.elts[pi].id, t.elts[ci].id
         conds = sk.atoms(sk.path_conds(c))
         bo = sym.Bindings(owner)
-        ctx.check(sk.has_atom(conds, sk.sub(SEEN, cc), False), "C10-X1", s,
-                  "enqueue of a neighbour is not guarded by `not seen[neighbour]`",
-                  "already reached elements are queued again; with the parent assignment this also re-parents them",
+        ctx.check(sk.has_atom(conds, sk.sub(SEEN, cc), False) or pop_tested, "C10-X1", s,
+                  "enqueue of a neighbour is guarded by `not seen[neighbour]` neither when pushed nor when popped",
+                  "every expansion re-enqueues the element it came from: the search never terminates",
                   note="enqueue guarded by not seen")
         ctx.check(pc in au.params(owner) or owner is fn, "C10-X1", s,
                   "pair pushed does not have the expanded element in the parent slot",
@@ -194,10 +196,19 @@ def bfs_tree(ctx, modname, cname, fn, kind, excl):
                 if isinstance(e, ast.Compare) and len(e.ops) == 1 and isinstance(e.ops[0], ast.In) and not p \
                         and au.is_self_attr(e.comparators[0], excl[1]) and isinstance(e.left, ast.Name):
                     crossed = e.left.id
-            if crossed is not None and crossed in lvars and d is not None:
-                # the neighbour must be derived from the crossed element
-                dn = au.names(sk.resolve_values(bo, d, bo._last_def_stmt if hasattr(bo, "_last_def_stmt") else c, keep=tuple(lvars)))
-                okx = crossed in dn
+            if crossed is not None and crossed in lvars and fors:
+                # the neighbour must be derived (assignment-only data dependence) from the crossed element
+                dep = {cc}
+                changed = True
+                while changed:
+                    changed = False
+                    for st_ in au.stmts(fors[0].body):
+                        if isinstance(st_, ast.Assign):
+                            tg = {nm for t_ in st_.targets for nm in au.assigned_names(t_)}
+                            if tg & dep and not au.names(st_.value) <= dep:
+                                dep |= au.names(st_.value)
+                                changed = True
+                okx = crossed in dep
             ctx.check(okx, "C10-X1", s, f"enqueue is not guarded by `<element crossed> not in self.{excl[1]}`",
                       f"the tree crosses a forbidden element; the test must be on the loop variable the neighbour is derived from "
                       f"(found: {crossed})", note=f"enqueue guarded by not in self.{excl[1]}")
@@ -210,18 +221,18 @@ def bfs_tree(ctx, modname, cname, fn, kind, excl):
     # ---- B1: mark, parent, expansion, root
     marks = [st for st in au.stmts(loop.body) if isinstance(st, ast.Assign) and len(st.targets) == 1 and sk.is_sub(st.targets[0], SEEN, child)]
     gm = [m for m in marks if au.const(m.value) is True
-          and all(sk.is_sub(e, SEEN, child) and not p for e, p in sk.atoms(sk.path_conds(m, stop=loop)))
-          and sk.has_atom(sk.path_conds(m, stop=loop), sk.sub(SEEN, child), False)]
+          and all(sk.is_sub(e, SEEN, child) and not p for e, p in sk.atoms(sk.path_conds(m, stop=loop)))]
     ctx.check(len(gm) == 1 and len(marks) == 1, "C10-B1", site, "`seen[child] = True` is missing or conditional after the seen test",
-              "without the mark the seen test never fires: the element is re-parented and expanded for every route reaching it",
+              "without the mark the guards `not seen[..]` never close: the search does not terminate on a mesh with a cycle",
               note="child marked seen once")
     pas = [st for st in au.stmts(loop.body) if isinstance(st, ast.Assign) and len(st.targets) == 1 and self_tab(st.targets[0], "parent")]
-    okp = len(pas) == 1 and pas[0].targets[0].slice.id == child and isinstance(pas[0].value, ast.Name) and pas[0].value.id == par \
-        and sk.has_atom(sk.path_conds(pas[0], stop=loop), sk.sub(SEEN, child), False)
-    ctx.check(okp, "C10-B1", site, "parent table is not written exactly once per popped pair as parent[child] = expanded element, after the seen test",
+    okp = len(pas) == 1 and pas[0].targets[0].slice.id == child and isinstance(pas[0].value, ast.Name) and pas[0].value.id == par
+    has_test = okp and sk.has_atom(sk.path_conds(pas[0], stop=loop), sk.sub(SEEN, child), False)
+    ctx.check(okp, "C10-B1", site, "parent table is not written exactly once per popped pair as parent[child] = expanded element",
               f"stores found: {[au.src(x) for x in pas]}; popped pair ({', '.join(pair)}), child = {child}",
               note="parent[child] = parent of the pair, once")
     DIST = None
+    has_dist = False
     if okp:
         extra = [(e, p) for e, p in sk.atoms(sk.path_conds(pas[0], stop=loop)) if not (sk.is_sub(e, SEEN, child) and not p)]
         if extra:
@@ -246,10 +257,16 @@ def bfs_tree(ctx, modname, cname, fn, kind, excl):
                     okd = w and len(upd) == 1 and _is_plus_one(upd[0].value, DIST, par)
                     dinit = b.reaching(DIST, loop)
                     okd = okd and dinit is not None and any(au.src(n) in ("float('inf')", "math.inf", "inf", "np.inf") for n in ast.walk(dinit))
+                    has_dist = okd
             ctx.check(okd, "C10-B1", ctx.site(modname, fn, pas[0]),
                       "parent assignment is guarded by something other than `dist[parent] + 1 < dist[child]` on a +inf-initialised table "
                       "updated in the same block",
                       f"guard `{au.src(extra[0][0])}`: on first visit the child must always receive its parent", note="hop-distance guard is vacuous on first visit")
+    if okp:
+        ctx.check(has_test or has_dist, "C10-B1", ctx.site(modname, fn, pas[0]),
+                  "parent assignment is protected neither by `if seen[child]: continue` nor by a hop-distance comparison",
+                  "an element reachable along two routes is queued twice: the later (never shorter) route overwrites its parent - the tree "
+                  "no longer gives minimum hop distances and parent may contain a cycle", note="parent assigned once: seen test / distance guard")
     # expansion of the child
     helpers = {name for name, d in local_defs(fn).items() if any(q_method(c, Q, ("append", "appendleft")) for c in au.calls(d))}
     exp = [c for c in au.calls(loop) if isinstance(c.func, ast.Name) and c.func.id in helpers and len(c.args) == 1
@@ -368,8 +385,25 @@ def p1_children(ctx, modname, cname, fn, kind, loop, DIST):
     oko = True
     for e, p in others:
         # accepted: `if isinf(dist[v]): continue`
-        if DIST and isinstance(e, ast.Call) and au.call_tail(e) == "isinf" and len(e.args) == 1 and sk.is_sub(e.args[0], DIST, v) and not p:
-            # needs dist to be maintained with the parent: checked in B1 (update in the same block as parent)
+        if isinstance(e, ast.Call) and au.call_tail(e) == "isinf" and len(e.args) == 1 and sk.is_sub(e.args[0], None, v) and not p:
+            # accepted idiom `if isinf(dist[v]): continue` - sound only if dist is finite for every element that has a parent:
+            # dist[child] = dist[parent] + 1 next to the parent store, dist[root] = 0
+            D = e.args[0].value.id
+            pst = [st for st in au.stmts(loop.body) if isinstance(st, ast.Assign) and len(st.targets) == 1 and self_tab(st.targets[0], "parent")]
+            okd = False
+            if len(pst) == 1 and isinstance(pst[0].value, ast.Name):
+                child_, par_ = pst[0].targets[0].slice.id, pst[0].value.id
+                pb, _ = au.enclosing_block(pst[0])
+                okd = any(isinstance(x, ast.Assign) and len(x.targets) == 1 and sk.is_sub(x.targets[0], D, child_) and _is_plus_one(x.value, D, par_)
+                          for x in pb)
+            pre = fn.body[:sk.index_in(fn.body, loop)]
+            okd = okd and any(isinstance(x, ast.Assign) and len(x.targets) == 1 and isinstance(x.targets[0], ast.Subscript)
+                              and isinstance(x.targets[0].value, ast.Name) and x.targets[0].value.id == D
+                              and au.is_self_attr(x.targets[0].slice, "root") and au.const(x.value) == 0 for x in pre)
+            ctx.check(okd, "C10-P1", ctx.site(modname, fn, c1),
+                      "elements are skipped on `isinf(dist[v])` but dist is not updated together with the parent table",
+                      f"`{D}[child] = {D}[parent] + 1` must sit next to `parent[child] = parent` (and {D}[root] = 0): otherwise reached elements keep "
+                      "an infinite distance and are left out of children / edges", note="dist finite exactly for reached elements")
             continue
         oko = False
     ctx.check(oko, "C10-P1", ctx.site(modname, fn, c1), "children / edges block has an extra guard",
@@ -593,7 +627,6 @@ def k1_kruskal(ctx):
               f"guards: {[('' if p else 'not ') + au.src(e) for e, p in conds]}: an edge closing a cycle must be rejected, every other admissible edge accepted",
               note="if not uf.connected(a, b)")
     # endpoints come from the loop edge
-    da = b.reaching(A, un)
     ends_ok = False
     for st in lp.body:
         if isinstance(st, ast.Assign) and isinstance(st.targets[0], ast.Tuple) and [getattr(x, "id", None) for x in st.targets[0].elts] in ([A, B], [B, A]):
@@ -912,7 +945,8 @@ def t1_traverse(ctx):
                   f"dequeue per order: {res}: breadth-first must be first-in first-out, depth-first last-in first-out (entries are appended on the right)",
                   note="BFS -> popleft, DFS -> pop")
     ys = [n for n in au.walk(loop) if isinstance(n, ast.Yield)]
-    oky = len(ys) == 1 and ys[0].value is not None and au.src(ys[0].value) == f"({node}, {par})" and not sk.path_conds(ys[0], stop=loop)
+    oky = len(ys) == 1 and ys[0].value is not None and au.src(ys[0].value) == f"({node}, {par})" and not sk.path_conds(ys[0], stop=loop) \
+        and any(au.enclosing_stmt(ys[0]) is x for x in loop.body)
     ctx.check(oky, "C10-T1", site, "traverse does not yield the popped (node, parent) pair exactly once per iteration",
               f"{[au.src(y) for y in ys]}", note="yield node, parent")
     enq = [c for c in au.calls(loop) if q_method(c, Q, ("append",))]
